@@ -58,7 +58,7 @@ def table_from_case(case):
 @st.composite
 def table_cases(draw, tier):
     msl = draw(st.integers(1, 4))
-    n = draw(st.one_of(st.just(2 * msl), st.integers(2 * msl, 16)))
+    n = draw(st.integers(2 * msl, 16))
     fam = draw(st.sampled_from(["pair", "closure", "l2int"]))
     case = {"n": n, "msl": msl, "family": fam, "k": draw(st.sampled_from([0, 1, 2, 3, 5, 8]))}
     if fam == "pair":
@@ -162,8 +162,8 @@ def builtin_cases(draw, tier):
     min_size = {"L2Cost": 1, "GaussianVarCost": 2, "GaussianCovCost": p + 1}[cost]
     msl = draw(st.integers(min_size, min_size + 3))
     nmax = 40 if tier == "quick" else 100
-    n = draw(st.one_of(st.just(2 * msl), st.integers(2 * msl, max(2 * msl, 24)),
-                       st.integers(2 * msl, nmax)))
+    n = D.weighted(draw, [(1, st.just(2 * msl)), (6, st.integers(2 * msl, max(2 * msl, 24))),
+                          (3, st.integers(2 * msl, nmax))])
     exact = draw(st.booleans()) if cost != "GaussianCovCost" else draw(st.sampled_from([False, False, True]))
     X, meta = draw(D.structured_matrix(n, p, exact=exact, boundary_positions=(msl, n - msl),
                                        max_spikes=2, max_bumps=2))
